@@ -59,6 +59,8 @@ fn f2_unicode(code: u16) -> &'static str {
 
 const FORM1_TEXT: &str = "Rs";
 const FORM2_TEXT: &str = "Tu";
+/// shown by Fm3 with ITS /F2 (the simple font); its /F1 run shows codes 0x10 0x11
+const FORM3_SIMPLE: &str = "Vz";
 
 fn build_pdf(content: &[u8]) -> Vec<u8> {
     let font_res = Obj::dict(vec![("F1", Obj::Ref(5, 0)), ("F2", Obj::Ref(6, 0))]);
@@ -71,7 +73,7 @@ fn build_pdf(content: &[u8]) -> Vec<u8> {
             ("Type", Obj::name("Page")),
             ("Parent", Obj::Ref(2, 0)),
             ("MediaBox", Obj::Array(vec![Obj::Int(0), Obj::Int(0), Obj::Int(612), Obj::Int(792)])),
-            ("Resources", Obj::dict(vec![("Font", font_res.clone()), ("XObject", Obj::dict(vec![("Fm1", Obj::Ref(10, 0))]))])),
+            ("Resources", Obj::dict(vec![("Font", font_res.clone()), ("XObject", Obj::dict(vec![("Fm1", Obj::Ref(10, 0)), ("Fm3", Obj::Ref(12, 0))]))])),
             ("Contents", Obj::Ref(4, 0)),
         ]),
     );
@@ -135,6 +137,21 @@ fn build_pdf(content: &[u8]) -> Vec<u8> {
             format!("BT /F1 10 Tf 1 0 0 1 300 480 Tm ({FORM2_TEXT}) Tj ET\n").into_bytes(),
         ),
     );
+    // Fm3: its own /Resources bind the page's font NAMES to the other fonts (/F1 -> the Type0
+    // font, /F2 -> the simple font). Resource names are scoped to the content stream that owns
+    // the resource dictionary (ISO 32000-1 7.8.3), so the page's /F1 is unaffected by it.
+    r.add(
+        12,
+        Obj::stream(
+            vec![
+                ("Type", Obj::name("XObject")),
+                ("Subtype", Obj::name("Form")),
+                ("BBox", Obj::Array(vec![Obj::Int(0), Obj::Int(0), Obj::Int(612), Obj::Int(792)])),
+                ("Resources", Obj::dict(vec![("Font", Obj::dict(vec![("F1", Obj::Ref(6, 0)), ("F2", Obj::Ref(5, 0))]))])),
+            ],
+            format!("BT /F1 9 Tf 1 0 0 1 300 400 Tm <00100011> Tj /F2 10 Tf ({FORM3_SIMPLE}) Tj ET\n").into_bytes(),
+        ),
+    );
     let mut fb = FileBuilder::new(1);
     fb.revisions.push(r);
     fb.build().bytes
@@ -165,6 +182,8 @@ enum O {
     Save,
     Restore,
     Do,
+    /// paints Fm3, whose private resources rebind /F1 and /F2 to the other fonts
+    DoRebind,
     Artifact { page_level: bool },
     Span { page_level: bool },
     Emc,
@@ -207,6 +226,7 @@ fn vocab() -> Vec<O> {
         O::Save,
         O::Restore,
         O::Do,
+        O::DoRebind,
         O::Artifact { page_level: false },
         O::Artifact { page_level: true },
         O::Span { page_level: false },
@@ -385,6 +405,13 @@ impl Gen {
                 // the forms set their own font inside the implicit q/Q of Do
                 self.run(FORM1_TEXT);
                 self.run(FORM2_TEXT);
+                self.enter_text();
+            }
+            O::DoRebind => {
+                self.leave_text()?;
+                self.w("/Fm3 Do");
+                self.run(&format!("{}{}", f2_unicode(0x10), f2_unicode(0x11)));
+                self.run(FORM3_SIMPLE);
                 self.enter_text();
             }
             O::Artifact { page_level } => {
@@ -707,6 +734,9 @@ fn features(ops: &[O], page: &Page) -> String {
     if ops.iter().any(|o| matches!(o, O::Artifact { .. })) {
         f.push("artifact");
     }
+    if ops.iter().any(|o| matches!(o, O::DoRebind)) {
+        f.push("form-rebinding-font-names");
+    }
     if ops.iter().any(|o| matches!(o, O::Do)) {
         f.push("form");
     }
@@ -806,7 +836,7 @@ fn check_page(c: &mut Ctx, ops: &[O], masks: &[u32]) {
 pub fn run(rep: &mut Report) {
     let thorough = rep.tier.is_thorough();
     rep.rule(
-        "a case = one operator sequence (every sequence over the 40-entry vocabulary up to the tier's length) placed between a leading and a closing run, \
+        "a case = one operator sequence (every sequence over the 41-entry vocabulary up to the tier's length) placed between a leading and a closing run, \
          extracted under every option set (defaults, each of 9 switches flipped, each pair; evaluations count option sets); \
          non-trivial = the sequence yields a valid content stream (always >= 2 shown runs); distinct input = distinct sequence",
     );
